@@ -37,4 +37,57 @@ theorem skel_OAuthProxy_AuthOnly_ok : skel_OAuthProxy_AuthOnly = ([
   "func{",
   "rw.WriteHeader"] : List String) := rfl
 
+theorem skel_stripHeaders_ok : skel_stripHeaders = ([
+  "return http.HandlerFunc(func(rw http.ResponseWriter, req *http.Requ",
+  "func{",
+  "req.Header.Del",
+  "next.ServeHTTP"] : List String) := rfl
+
+theorem skel_injectRequestHeaders_ok : skel_injectRequestHeaders = ([
+  "return http.HandlerFunc(func(rw http.ResponseWriter, req *http.Requ",
+  "func{",
+  "next.ServeHTTP"] : List String) := rfl
+
+theorem skel_injectResponseHeaders_ok : skel_injectResponseHeaders = ([
+  "return http.HandlerFunc(func(rw http.ResponseWriter, req *http.Requ",
+  "func{",
+  "next.ServeHTTP"] : List String) := rfl
+
+theorem skel_NewRequestHeaderInjector_ok : skel_NewRequestHeaderInjector = ([
+  "if err != nil",
+  "return nil, fmt.Errorf(\"error building request header injector: %v\", err",
+  "if strip != nil",
+  "return alice.New(strip, headerInjector).Then, nil",
+  "alice.New",
+  "return headerInjector, nil"] : List String) := rfl
+
+theorem skel_flattenHeaders_ok : skel_flattenHeaders = ([
+  "if len(values) > 1 && name != \"Set-Cookie\"",
+  "headers.Set",
+  "strings.Join"] : List String) := rfl
+
+theorem skel_newClaimInjector_ok : skel_newClaimInjector = ([
+  "case source.BasicAuthPassword != nil",
+  "if err != nil",
+  "return nil, fmt.Errorf(\"error loading basicAuthPassword: %v\", err)",
+  "return newInjectorFunc(func(header http.Header, session *sessionsap, nil",
+  "func{",
+  "session.GetClaim",
+  "if claim == \"\"",
+  "header.Add",
+  "fmt.Sprintf",
+  "base64.StdEncoding.EncodeToString",
+  "case source.Prefix != \"\"",
+  "return newInjectorFunc(func(header http.Header, session *sessionsap, nil",
+  "func{",
+  "session.GetClaim",
+  "if claim == \"\"",
+  "header.Add",
+  "case ",
+  "return newInjectorFunc(func(header http.Header, session *sessionsap, nil",
+  "func{",
+  "session.GetClaim",
+  "if claim == \"\"",
+  "header.Add"] : List String) := rfl
+
 end O2P.Expect.C07
